@@ -5,7 +5,7 @@ From PP Require Import Gen.GenMemo.
 Import ListNotations.
 Local Open Scope string_scope.
 
-Lemma lr_source_pinned :
+Definition lr_source_text : Prop :=
   gen_lru_init = "self._capacity = capacity ; self._active = {} ; self._memory = {}" /\
   gen_lru_getitem = "try: return self._active[key] except KeyError: self._memory[key] = self._memory.pop(key) return self._memory[key]" /\
   gen_lru_setitem = "self._memory.pop(key, None) ; self._active[key] = value" /\
@@ -16,4 +16,6 @@ Lemma lr_source_pinned :
   gen_forward_lr_guard = ["not ParserElement._left_recursion_enabled"] /\
   gen_forward_lr_block = "memo = ParserElement.recursion_memos ; try: prev_loc, prev_result = memo[loc, self, do_actions] if isinstance(prev_result, Exception): raise prev_result return (prev_loc, prev_result.copy()) except KeyError: act_key = (loc, self, True) peek_key = (loc, self, False) prev_loc, prev_peek = memo[peek_key] = (loc - 1, ParseException(instring, loc, 'Forward recursion without base case', self)) if do_actions: memo[act_key] = memo[peek_key] while True: try: new_loc, new_peek = super().parseImpl(instring, loc, False) except ParseException: if isinstance(prev_peek, Exception): raise new_loc, new_peek = (prev_loc, prev_peek) if new_loc <= prev_loc: if do_actions: prev_loc, prev_result = memo[peek_key] = memo[act_key] del memo[peek_key], memo[act_key] return (prev_loc, copy.copy(prev_result)) del memo[peek_key] return (prev_loc, copy.copy(prev_peek)) if do_actions: try: memo[act_key] = super().parseImpl(instring, loc, True) except ParseException as e: memo[peek_key] = memo[act_key] = (new_loc, e) raise prev_loc, prev_peek = memo[peek_key] = (new_loc, new_peek)" /\
   gen_reset_cache = "with ParserElement.packrat_cache_lock: ParserElement.packrat_cache.clear() ParserElement.packrat_cache_stats[:] = [0] * len(ParserElement.packrat_cache_stats) ParserElement.recursion_memos.clear()".
-Proof. repeat split; reflexivity. Qed.
+
+Lemma lr_source_pinned : lr_source_text.
+Proof. unfold lr_source_text; repeat split; reflexivity. Qed.
